@@ -243,9 +243,9 @@ func init() {
 		ID:        "C06",
 		Technique: "guarded-macro typestate on every decode arm (each buffer access / cursor update must be one of the verified guarded forms that keep 0 <= cursor <= len), structural proof of runtime.Skip, option-mapping rule for the recursion budget, nil-store and nil-receiver rules",
 		DesignRef: "DESIGN.md 3.7, 3.8, 4 C06",
-		LevelText: "For every arm of every generated decoder (checked-in and regenerated corpus): every access to the input and every cursor update is one of a closed set of guarded forms whose guards are required verbatim and in order (varint reader with cursor>=l and shift>=64 guards; fixed read behind (cursor+k)>l; payload slice only after len<0, end<0 (overflow) and end>l; Skip block with err, negative/overflow and bound guards; last-element access only right after an append); each form preserves 0 <= cursor <= l, so no index or slice expression can be out of range for any byte string; every loop consumes >= 1 byte per iteration (tag reader first; Skip returns >= 1, decided on Skip itself), so decoding terminates; no panic call or unchecked assertion exists in a decoder; allocations are sized by guarded ints bounded by the remaining input (capacity hints <= payload length). The nesting budget must be carried: OPTS.depth demands RecursionLimit derived from input.Depth (open finding F3). Accepted messages are safe to read: no nil message pointer is planted (DEC.mapdefault, open finding F6) and read accessors do not dereference nil (NIL.recv, open finding F7). Not decided: stack depth in bytes, wall-clock or allocator behaviour as quantities.",
+		LevelText: "For every arm of every generated decoder (checked-in and regenerated corpus): every access to the input and every cursor update is one of a closed set of guarded forms whose guards are required verbatim and in order (varint reader with cursor>=l and shift>=64 guards; fixed read behind (cursor+k)>l; payload slice only after len<0, end<0 (overflow) and end>l; Skip block with err, negative/overflow and bound guards; last-element access only right after an append); each form preserves 0 <= cursor <= l, so no index or slice expression can be out of range for any byte string; every loop consumes >= 1 byte per iteration (tag reader first; Skip returns >= 1, decided on Skip itself), so decoding terminates; no panic call or unchecked assertion exists in a decoder; allocations are sized by guarded ints bounded by the remaining input (capacity hints <= payload length). The nesting budget is carried: every decoder returns an error when input.Depth <= 0 before reading anything (DEC.depth) and hands nested decodes a RecursionLimit that the checker evaluates to be non-zero and strictly smaller than input.Depth (OPTS.depth), so nesting deeper than the budget of the outermost call is rejected. Accepted messages are safe to read: no nil message pointer is planted (DEC.mapdefault, open finding F6) and read accessors do not dereference nil (NIL.recv, open finding F7). Not decided: stack depth in bytes, wall-clock or allocator behaviour as quantities.",
 		Engines:      E{codec.RunDec, codec.RunSkip, codec.RunOpts, refl.RunNil},
-		RulePrefixes: []string{"BND", "DEC.walk", "DEC.frame", "DEC.mapdefault", "OPTS.depth", "L.skip", "NIL.recv", "NIL.wrap", "G.model", "G.anchor", "GEN.build"},
+		RulePrefixes: []string{"BND", "DEC.walk", "DEC.frame", "DEC.mapdefault", "DEC.depth", "OPTS.depth", "L.skip", "NIL.recv", "NIL.wrap", "G.model", "G.anchor", "GEN.build"},
 		Floors: []core.Floor{
 			{Rule: "BND.macro", Min: 400, Why: "decode arms"},
 			{Rule: "BND.nopanic", Min: 50, Why: "message types"},
